@@ -73,6 +73,15 @@ type inst struct {
 	tx             *types.Transaction
 }
 
+// group: a well-formed transaction group (Header / Next / GroupCount linked, members signed).
+type group struct {
+	txs      *types.Transactions
+	fee      int64 // txs[0].Fee
+	required int64 // Σ over the members of (size/1000+1) * minFeeRate — computed here, not by Transactions.Check
+	whole    int64 // (Σ size / 1000 + 1) * minFeeRate
+	feeOK    bool
+}
+
 type variant struct {
 	wid, hdr, parent int
 	height           int64
@@ -104,6 +113,8 @@ type env struct {
 	started  bool
 	broken   string
 	// bookkeeping for the predicates
+	groups     map[int]*group // by first instance
+	groupOf    map[int]*group // by member instance
 	pooled     map[int]bool   // tag was submitted to the pool at some time
 	lastRes    map[int]string // hdr -> result of the last delivery of a TAMPERED variant
 	genuineDel map[int]bool   // hdr -> the genuine variant was delivered before
@@ -272,6 +283,122 @@ func (e *env) buildTx(w []string) string {
 	return "ok"
 }
 
+// badRoot: the header root as the flag says — 1 as computed; 0 another value of the same length;
+// e empty; s one byte short; l one byte long; z all zero.
+func badRoot(f byte, root []byte) []byte {
+	switch f {
+	case '0':
+		return corrupt(root)
+	case 'e':
+		return nil
+	case 's':
+		if len(root) == 0 {
+			return nil
+		}
+		return append([]byte{}, root[:len(root)-1]...)
+	case 'l':
+		return append(append([]byte{}, root...), 0x07)
+	case 'z':
+		return make([]byte, 32)
+	}
+	return root
+}
+
+// buildGroup: grp <first inst> <n> <fee spec> <tagbase>: n small coins transfers of the genesis
+// account linked into a group whose header transaction pays: S the per-member sum of real fees,
+// S+ more, S-1 one below, W the figure for the summed sizes, M halfway between W and S, W-1.
+func (e *env) buildGroup(w []string) string {
+	first, ok1 := atoi(w[1])
+	n, ok2 := atoi(w[2])
+	tb, ok3 := atoi(w[4])
+	if !ok1 || !ok2 || !ok3 || n < 2 || n > 20 {
+		return "bad-op"
+	}
+	for i := 0; i < n; i++ {
+		if e.insts[first+i] != nil {
+			return "bad-op"
+		}
+		if _, dup := e.tagHash[tb+i]; dup {
+			return "bad-op"
+		}
+	}
+	cfg := e.cfg
+	rate := cfg.GetMinTxFeeRate()
+	build := func(fee int64) []*types.Transaction {
+		txs := make([]*types.Transaction, n)
+		for i := 0; i < n; i++ {
+			tx := chainkit.BuildTx(cfg, chainkit.TxSpec{From: e.key(0), To: chainkit.Recipient, Amount: int64(1000 + tb + i),
+				Nonce: int64(7_000_000 + tb + i), Fee: 0, Expire: 0, ChainID: cfg.GetChainID()})
+			tx.Signature = nil
+			tx.GroupCount = int32(n)
+			txs[i] = tx
+		}
+		txs[0].Fee = fee
+		for i := n - 1; i >= 1; i-- {
+			txs[i-1].Next = txs[i].Hash()
+		}
+		header := txs[0].Hash()
+		for i := 0; i < n; i++ {
+			txs[i].Header = header
+			txs[i].Sign(types.SECP256K1, e.key(0))
+		}
+		return txs
+	}
+	measure := func(txs []*types.Transaction) (sum, whole int64) {
+		total := 0
+		for _, tx := range txs {
+			sz := types.Size(tx)
+			total += sz
+			sum += int64(sz/1000+1) * rate
+		}
+		return sum, int64(total/1000+1) * rate
+	}
+	probe := build(int64(n) * rate)
+	S, W := measure(probe)
+	if W >= S {
+		return "bad-op:group-sizes"
+	}
+	var fee int64
+	switch w[3] {
+	case "S":
+		fee = S
+	case "S+":
+		fee = S + rate
+	case "S-1":
+		fee = S - 1
+	case "W":
+		fee = W
+	case "M":
+		fee = (W + S) / 2
+	case "W-1":
+		fee = W - 1
+	default:
+		return "bad-op"
+	}
+	txs := build(fee)
+	S2, W2 := measure(txs)
+	g := &group{txs: &types.Transactions{Txs: txs}, fee: fee, required: S2, whole: W2, feeOK: fee >= S2}
+	if g.feeOK != (w[3] == "S" || w[3] == "S+") {
+		return "bad-op:fee-oracle"
+	}
+	for i, tx := range txs {
+		if !tx.CheckSign(1) {
+			return "bad-op:sig-oracle"
+		}
+		h := tx.Hash()
+		if _, dup := e.hashTag[string(h)]; dup {
+			return "bad-op:hash-tag"
+		}
+		e.tagHash[tb+i] = h
+		e.hashTag[string(h)] = tb + i
+		e.insts[first+i] = &inst{id: first + i, tag: tb + i, key: 0, sig: true, exp: "n", fee: g.feeOK, chain: true, ok: g.feeOK, tx: tx}
+		e.groupOf[first+i] = g
+	}
+	e.groups[first] = g
+	out.Stat("groups_built", 1)
+	return "ok"
+}
+
 func corrupt(b []byte) []byte {
 	c := append([]byte{}, b...)
 	if len(c) == 0 {
@@ -290,7 +417,11 @@ func (e *env) buildBlk(w []string) string {
 	tm, ok6 := atoi(w[6])
 	fl := w[8]
 	if !ok1 || !ok2 || !ok3 || !ok4 || err5 != nil || !ok6 || wid <= 0 || e.vars[wid] != nil || len(fl) != 4 ||
-		strings.Trim(fl[:3], "01") != "" || !strings.Contains("ket", fl[3:]) || height < 0 || tm < 0 {
+		strings.Trim(fl[:1], "01") != "" || strings.Trim(fl[1:3], "01eslz") != "" || !strings.Contains("ket", fl[3:]) ||
+		height < 0 || tm < 0 {
+		return "bad-op"
+	}
+	if hdr != wid && strings.Trim(fl[1:3], "01") != "" {
 		return "bad-op"
 	}
 	var ids []int
@@ -383,12 +514,8 @@ func (e *env) buildBlk(w []string) string {
 		}
 		b.StateHash = parent.StateHash
 	}
-	if fl[1] == '0' {
-		b.TxHash = corrupt(b.TxHash)
-	}
-	if fl[2] == '0' {
-		b.StateHash = corrupt(b.StateHash)
-	}
+	b.TxHash = badRoot(fl[1], b.TxHash)
+	b.StateHash = badRoot(fl[2], b.StateHash)
 	if fl[0] == '0' {
 		b.Signature = &types.Signature{Ty: types.SECP256K1, Pubkey: e.key(0).PubKey().Bytes(), Signature: []byte("garbage-block-signature")}
 	}
@@ -412,6 +539,12 @@ func (e *env) buildBlk(w []string) string {
 		return "bad-op:dup-header"
 	}
 	v.execOK = canExec && !dropped && fl[1] == '1' && fl[2] == '1'
+	for _, i := range ids {
+		if g := e.groupOf[i]; g != nil && !g.feeOK {
+			static = false
+		}
+	}
+	v.static = static
 	v.genuine = static && v.execOK
 	e.byHash[string(v.hash)] = wid
 	e.vars[wid] = v
@@ -488,6 +621,8 @@ func (e *env) run(line string) string {
 		e.started = false
 		e.broken = ""
 		e.pooled = map[int]bool{}
+		e.groups = map[int]*group{}
+		e.groupOf = map[int]*group{}
 		e.lastRes = map[int]string{}
 		e.genuineDel = map[int]bool{}
 		e.lastSrc = map[int]string{}
@@ -516,6 +651,11 @@ func (e *env) run(line string) string {
 			return "bad-op"
 		}
 		return e.buildBlk(w)
+	case "grp":
+		if len(w) != 5 || e.node == nil || e.started {
+			return "bad-op"
+		}
+		return e.buildGroup(w)
 	}
 	if e.node == nil {
 		return "bad-op"
@@ -553,8 +693,17 @@ func (e *env) run(line string) string {
 		}
 		e.pooled[e.insts[i].tag] = true
 		e.log = append(e.log, fmt.Sprintf("pool+%d", i))
-		if s := e.node.PoolSend(e.insts[i].tx); s != "" {
+		tx := e.insts[i].tx
+		g := e.groups[i]
+		if g != nil {
+			tx = g.txs.Tx() // the packed group as wallets submit it
+		}
+		if s := e.node.PoolSend(tx); s != "" {
 			return strings.ReplaceAll(s, " ", "_")
+		}
+		if g != nil && Prop == "C28" && g.fee < g.required {
+			out.Pred(Prop+"|mempool.checkTxs|group-underpays-fee|accepted-by-pool",
+				fmt.Sprintf("group=%d members=%d fee=%d required=%d %s", i, len(g.txs.Txs), g.fee, g.required, e.detail()))
 		}
 		return "ok"
 	case "pool?":
